@@ -1,30 +1,22 @@
-/- C15: ties to the source text.  Built and audited together with Props/C15.lean by check.py, but in a module of its own, so that a
+/- C12: ties to the source text.  Built and audited together with Props/C12.lean by check.py, but in a module of its own, so that a
    changed textual fact breaks the obligations of the properties that own it and not those of every module that imports their lemmas. -/
-import CosetProofs.Ties.NarrowingSites
 import CosetProofs.Ties.Compare.Common
-import CosetProofs.Ties.Compare.Context
 import CosetProofs.Ties.Compare.Cwt
 import CosetProofs.Ties.Compare.Header
 import CosetProofs.Ties.Compare.Key
-namespace Coset.Props.C15
+namespace Coset.Props.C12
 
 /-! ### ties to the source text (regenerated on every run, compared in the kernel with the transcribed tree) -/
-/-- the source has no lossy or checked integer conversion (`as`, `try_into`, `try_from`) beyond those of the tree the model was transcribed from. -/
-theorem tie_narrowing_sites : Coset.Ties.sitesCovered (Coset.Ties.lossy Coset.Gen.narrowingSites) (Coset.Ties.lossy Coset.Pinned.narrowingSites) = true := Coset.Ties.narrowing_sites
-
-#print axioms tie_narrowing_sites
 
 /-! comparisons and integer literals of the modules this property is anchored in (properties.jsonl): none beyond the transcribed tree's -/
 theorem tie_compare_common : Coset.Ties.compareCovered "common" Coset.Gen.decisionBudget Coset.Pinned.decisionBudget = true := Coset.Ties.compare_common
-theorem tie_compare_context : Coset.Ties.compareCovered "context" Coset.Gen.decisionBudget Coset.Pinned.decisionBudget = true := Coset.Ties.compare_context
 theorem tie_compare_cwt : Coset.Ties.compareCovered "cwt" Coset.Gen.decisionBudget Coset.Pinned.decisionBudget = true := Coset.Ties.compare_cwt
 theorem tie_compare_header : Coset.Ties.compareCovered "header" Coset.Gen.decisionBudget Coset.Pinned.decisionBudget = true := Coset.Ties.compare_header
 theorem tie_compare_key : Coset.Ties.compareCovered "key" Coset.Gen.decisionBudget Coset.Pinned.decisionBudget = true := Coset.Ties.compare_key
 
 #print axioms tie_compare_common
-#print axioms tie_compare_context
 #print axioms tie_compare_cwt
 #print axioms tie_compare_header
 #print axioms tie_compare_key
 
-end Coset.Props.C15
+end Coset.Props.C12
